@@ -86,6 +86,39 @@ def _held_error(ty, markers):
     return ty
 
 
+def _param_never_holds_error(crate, fn, t):
+    """The dropped place is a by-value parameter of a private function, and at every call site in the crate the
+    argument is a freshly built enum value of a variant without payload (`ErrorCode::EofWhileParsingString`): it is a
+    code handed down for possible use and cannot carry an error that occurred."""
+    pl = t.get("place") or {}
+    l = pl.get("l")
+    if pl.get("p") or l is None or not (1 <= l <= fn.arg_count) or fn.is_pub or fn.kind == "closure":
+        return False
+    sites = 0
+    for g in crate.fns:
+        for _bi, ct in g.calls():
+            c = ct["callee"]
+            if (c.get("resolved") or c.get("path")) != fn.path:
+                continue
+            if l - 1 >= len(ct["args"]):
+                return False
+            o = origin(g, defs_of(g), ct["args"][l - 1])
+            if not (o["k"] == "agg" and not o["rv"].get("fields") and o["rv"].get("adt") and o["rv"].get("vname")):
+                return False
+            sites += 1
+        # a function item passed as a value could be called with anything
+        for b in g.blocks:
+            for st in b["stmts"]:
+                if st["k"] == "assign":
+                    for op in [st["rv"].get("op"), st["rv"].get("a"), st["rv"].get("b")] + list(st["rv"].get("fields") or []):
+                        if isinstance(op, dict) and op.get("c") == "const" and op.get("fn") == fn.path:
+                            return False
+            bt = b["term"]
+            if bt["k"] == "call" and any(a.get("c") == "const" and a.get("fn") == fn.path for a in bt["args"]):
+                return False
+    return sites > 0
+
+
 def errdrop_scan(rule, crate, fn_pred, markers, exceptions, what, scope_gone=True):
     """R-ERRDROP: no non-cleanup Drop of an error-typed place, no discarding adaptor.
 
@@ -116,6 +149,10 @@ def errdrop_scan(rule, crate, fn_pred, markers, exceptions, what, scope_gone=Tru
             t = b["term"]
             if t["k"] == "drop":
                 ty = t["ty"]
+                if ty_mentions_error(ty, markers) and _param_never_holds_error(crate, fn, t):
+                    rule.ok("%s: the dropped %s is a parameter that every caller fills with a payload-free constant "
+                            "(an error *code* to use, not an error that happened)" % (fn.path, ty), fn, t.get("line"))
+                    continue
                 if ty_mentions_error(ty, markers):
                     # keyed by the error type the dropped value can hold (a Result<T, E> and a bare E are the same
                     # kind of loss), so that moving the site into a generic helper keeps its identity
